@@ -327,6 +327,15 @@ func exec(s *xmpp.Session, cl call) (status string) {
 				}
 			case "iq", "msg", "pres":
 				var resp xmlstream.TokenReadCloser
+				if cl.form == "el" || cl.form == "encel" || cl.form == "encv" {
+					if r2, e2, done := familyCall(s, cancelled, cl); done {
+						resp, err = r2, e2
+						if resp != nil {
+							resp.Close()
+						}
+						break
+					}
+				}
 				switch cl.entry {
 				case "iq":
 					if strings.HasPrefix(cl.form, "struct:") {
@@ -712,6 +721,9 @@ func (c *ctxT) genCall(rnd *common.Rand, big int) call {
 		}
 		cl.toks[0] = s
 		cl.toks[len(cl.toks)-1] = s.End()
+		if rnd.Chance(2, 5) && s.Name.Local == loc {
+			cl = familyVariant(rnd, cl)
+		}
 	}
 	return cl
 }
@@ -1072,6 +1084,31 @@ func Run(r *common.Run) error {
 				}
 				continue
 			}
+			if len(f) == 11 && f[0] == "C05" && f[1] == "behind" {
+				cfg := mkCfg(f[7], f[8])
+				park, _ := strconv.Atoi(f[3])
+				k, _ := strconv.Atoi(f[4])
+				ts, err1 := decToks(f[5])
+				us, err2 := decToks(f[10])
+				cl := call{entry: f[6], form: "reader", toks: us}
+				if f[6] == "enc" || f[6] == "encel" {
+					cl.form = "marshaler"
+				}
+				if f[9] != "-" {
+					st, err := decToks(f[9])
+					if err != nil || len(st) != 1 {
+						continue
+					}
+					if s, ok := st[0].(xml.StartElement); ok {
+						cl.start = &s
+					}
+				}
+				if err1 == nil && err2 == nil {
+					c.behind(cfg, f[2], park, k, ts, cl)
+					executed++
+				}
+				continue
+			}
 			if len(f) == 6 && f[0] == "C05" && f[1] == "reuse" {
 				c.reuse(mkCfg(f[2], f[3]), f[4], strings.Split(f[5], ","))
 				executed++
@@ -1139,6 +1176,7 @@ func Run(r *common.Run) error {
 			}
 			if i%10 == 0 {
 				c.autoReply(cfgs[i%len(cfgs)])
+				c.behindCorpus(cfgs[i%len(cfgs)])
 			}
 		}
 		return nil
@@ -1155,6 +1193,10 @@ func Run(r *common.Run) error {
 		c.spellingCorpus(cfg)
 		c.rawTopCorpus(cfg)
 		c.autoReply(cfg)
+	}
+	r.Mark("case calls queued behind a sender that stops inside its element")
+	for _, cfg := range cfgs {
+		c.behindCorpus(cfg)
 	}
 	r.Mark("case token writer handles used after Close")
 	c.reuseAll()
@@ -1180,6 +1222,26 @@ func Run(r *common.Run) error {
 		toks := noForeign(cfg, call{entry: "send", toks: genElement(rnd, 0, true, 0)}).toks
 		next := noForeign(cfg, call{entry: "send", toks: genElement(rnd, 0, true, 0)}).toks
 		c.fault(cfg, pickS(rnd, []string{"reader", "tw", "badtok", "badend"}), toks, 1+rnd.Intn(len(toks)-1), next)
+	}
+	nBehind := r.Pick(40, 600)
+	for i := 0; i < nBehind; i++ {
+		cfg := cfgs[rnd.Intn(len(cfgs))]
+		bigH, bigN := 0, 0
+		if i%8 == 0 {
+			bigH = 4000 + rnd.Intn(20000) // larger than the encoder's buffer: bytes reach the connection while the lock is held
+		}
+		if i%8 == 4 {
+			bigN = 4000 + rnd.Intn(20000)
+		}
+		toks := noForeign(cfg, call{entry: "send", toks: genElement(rnd, 0, true, bigH)}).toks
+		next := noForeign(cfg, call{entry: "send", toks: genElement(rnd, 0, true, bigN)}).toks
+		cl, ok := behindCall(pickS(rnd, []string{"send", "sendel", "enc", "encel", "tw", "reply"}), next)
+		if !ok || len(toks) < 3 {
+			continue
+		}
+		cl = noForeign(cfg, cl)
+		k := 1 + rnd.Intn(len(toks)-1)
+		c.behind(cfg, pickS(rnd, []string{"fail", "finish", "twfail", "encfail"}), rnd.Intn(k+1), k, toks, cl)
 	}
 	nConc := r.Pick(30, 300)
 	for i := 0; i < nConc; i++ {
